@@ -963,6 +963,7 @@ OPS: Dict[str, Tuple[str, Callable]] = {
     "add_reactions": ("model.add_reactions([R3 with a new metabolite and a new gene])", lambda w, m, h: m.add_reactions([_new_rxn(w, m, h)])),
     "remove_reactions": ("model.remove_reactions([R1])", lambda w, m, h: m.remove_reactions([h["R1"]])),
     "remove with orphans": ("model.remove_reactions([R2], remove_orphans=True)", lambda w, m, h: m.remove_reactions([h["R2"]], remove_orphans=True)),
+    "remove and add back": ("model.remove_reactions([R2], remove_orphans=True); model.add_reactions([R2])", lambda w, m, h: (m.remove_reactions([h["R2"]], remove_orphans=True), m.add_reactions([h["R2"]]))),
     "remove by id": ("model.remove_reactions(['EX_a'])", lambda w, m, h: m.remove_reactions(["EX_a"])),
     "remove_from_model": ("R1.remove_from_model()", lambda w, m, h: h["R1"].remove_from_model()),
     "add_metabolites": ("model.add_metabolites([z_c])", lambda w, m, h: m.add_metabolites([w.new("Metabolite", "z_c", compartment="c")])),
